@@ -92,6 +92,12 @@ class CppEval:
                      "sensor": {"jacobian": "H", "covariance": "Q"}}[self.kind]
             if name in table:
                 self.note_call(table[name], e)
+                # the linearisation point is part of the atom: a Jacobian / noise matrix evaluated anywhere but at the function's own state
+                # parameter is a different matrix
+                pos = 1 if self.kind == "process" else 0
+                at = self.deref(e[2][pos]) if len(e[2]) > pos else None
+                if at is not None and at != ("ref", self.state_param):
+                    return MatForm.atom(f"{table[name]}@{cppast.show(at)}", False)
                 return A(table[name])
         return None
 
@@ -323,6 +329,10 @@ def helper_forms(ctx: core.Ctx):
         if k == "call" and e[1] != "sqrt":
             u = unfold(e)
             return sca(u) if u is not None else None
+        if k == "mcall" and e[2] == "()" and len(e[3]) == 2 and all(a == ("num", "0") for a in e[3]):
+            # (1x1 matrix product)(0, 0) used as a number: an atom named by the matrix normal form
+            m_ = mat(e[1])
+            return Scalar.atom("M[" + repr(m_) + "]") if m_ is not None else None
         if k == "num":
             try:
                 from fractions import Fraction
@@ -335,6 +345,8 @@ def helper_forms(ctx: core.Ctx):
             if e[1] == tpar:
                 return Scalar.atom("|READ(k)|")
             v = env.get(e[1])
+            if isinstance(v, tuple) and v[0] == "M":
+                return Scalar.atom("M[" + repr(v[1]) + "]")       # a matrix-valued local read as a number
             return v[1] if isinstance(v, tuple) and v[0] == "S" else None
         if k == "bin" and e[1] in "*+-":
             l, r = sca(e[2]), sca(e[3])
@@ -365,8 +377,19 @@ def helper_forms(ctx: core.Ctx):
                 if op in ("<", "<="):
                     l, r, op = r, l, {"<": ">", "<=": ">="}[op]
                 result = (mat(l), sca(r), {">": "Gt", ">=": "GtE"}[op], cppast.show(e))
+                if result[0] is None or result[1] is None:
+                    # not  <1x1 matrix product> <op> <scalar bound> : both sides as commutative polynomials over the matrix-valued atoms
+                    ls, rs = sca(l), sca(r)
+                    if ls is not None and rs is not None:
+                        result = ("POLY", ls, rs, {">": "Gt", ">=": "GtE"}[op], cppast.show(e))
             else:
                 raise core.AnalysisError(f"{rel}: removeInnovation returns `{cppast.show(e)}`, not a comparison")
+    if result is not None and result[0] == "POLY":
+        _, ls, rs, op, text = result
+        ctx.find("NIS-FORM", rel, "removeInnovation", "decision form",
+                 f"the C++ helper decides by `{text}`, i.e.  {ls!r}  {op}  {rs!r} : that is not  y^T.Inv(S).y > k*sqrt(2m) + m  (a rearrangement that squares or "
+                 f"otherwise transforms both sides changes which readings are discarded)")
+        return None
     if result is None or result[0] is None or result[1] is None:
         raise core.AnalysisError(f"{rel}: could not derive the normal forms of removeInnovation's decision")
     return result
